@@ -1,5 +1,7 @@
 HOOK_COMMITS = []
 ENGINES = [
+    {"name": "E2", "path": "mc/props/c06.py", "kind_free_text": "explicit-state breadth-first search over call histories of a real Record (state = history replayed on a fresh object, canonical state hash, invariants in every state, differential oracles)",
+     "serves_properties": ["C06", "C08"]},
     {"name": "E1", "path": "mc/engine/core.py", "kind_free_text": "bounded exhaustive input enumeration of the real functions against set-of-bases / truth-table reference models, sharded over processes",
      "serves_properties": ["C01", "C02", "C03", "C04", "C05", "C07", "C08"]},
 ]
@@ -17,8 +19,8 @@ CHECKS = {
                      "gene world (boundary gaps around the cutoff, line/ring/origin) and every hit assignment, and compared with a 25-line "
                      "truth-table semantics of the documented meaning; exhaustive within the bound.",
                 note="Bounds: <=2 leaves quick, <=3 thorough, <=2 neighbours; profile names interchangeable; reference semantics in mc/ref/rulesem.py trusted."),
-    "C08": dict(engine="E1", level="exploration", ref="DESIGN.md 5/C08",
-                technique="bounded exhaustive enumeration of gene layouts x query locations on the real Record vs brute-force set-of-bases predicates",
+    "C08": dict(engine="E1+E2", level="model_checking", ref="DESIGN.md 5/C08",
+                technique="explicit-state BFS over add/create/clear histories of a real Record (membership and links in every state, build-order differential) + bounded exhaustive enumeration of gene layouts x query locations vs brute-force set-of-bases predicates",
                 text="Every set of <=3-4 genes over all intervals of a tiny line/ring and every query location (simple and origin-spanning, both flags) "
                      "is looked up through the real Record and compared with brute force over all genes.",
                 note="Small-scope (L<=12, <=4 genes); origin-spanning genes may be reported first or last for simple queries; build-order part shares the C06 state graph."),
@@ -47,4 +49,11 @@ CHECKS = {
                      "of the origin (records rebuilt from scratch) and for every permutation / sub-selection of the rules; coordinate-free descriptions "
                      "must be identical (rotation: when every base region spans < L/2).",
                 note="L in {24,25}, <=3 genes, gaps {0,1,2,3,4,6}; descriptions computed by set-of-bases containment; no expected values needed."),
+    "C06": dict(engine="E1+E2", level="model_checking", ref="DESIGN.md 5/C06",
+                technique="explicit-state BFS over add/clear/create call histories of a real Record with a canonical state hash + bounded exhaustive enumeration of area sets vs connected components",
+                text="Part A: every set of <=3-4 areas (subregions, candidate clusters via real protoclusters) on a slotted line/ring through "
+                     "create_regions, judged against connected components of set-of-bases overlap, span == union, numbering. Part B: breadth-first "
+                     "search over all call histories up to depth 6/8 of a 15-16 operation alphabet on real Records; numbering, identity, parent/child "
+                     "links, no stale references, clear+create idempotence and build-order independence are checked in every state.",
+                note="Canonicalisation drops only fields no public accessor exposes; enabling conditions follow the pipeline order (protoclusters -> candidates -> regions); depth bound 6 (quick) / 8 (thorough)."),
 }
